@@ -6,6 +6,7 @@ crate-local callees analysed in context (inlining); external callees through
 engine/contracts.py.  Never executes dlt-core code, never unrolls loops, no solver.
 """
 import heapq
+import time
 import re
 from collections import defaultdict
 
@@ -135,6 +136,8 @@ class Engine:
         self.events = []  # generic event log for rules (appended by contracts)
         self.partition_filter = None  # callable(frame, block index, kind, detail) -> bool
         self.inline_filter = None  # callable(path) -> bool: may this local callee be inlined
+        self.deadline = None  # optional wall-clock limit (time.time() value) for auxiliary analyses
+        self.len_bound_all_joins = False  # apply the length-bound join template at every join, not only at loop heads (costly)
         self.model_lazy_collect = False  # analyse `iter.map(f).collect()` over an unknown-length iterator as an abstract loop (built, off: the invariant it infers for values captured by reference is too weak)
         self.on_closure = None  # hook(eng, st, frame, closure aggregate rvalue, captured operand values)
         self.on_agg = None  # hook(eng, st, frame, aggregate rvalue, operand values): observe ADT constructions
@@ -268,6 +271,8 @@ class Engine:
                 self.steps += 1
                 if self.steps > self.budget:
                     raise Budget("analysis budget exceeded in %s" % body["path"])
+                if self.deadline is not None and (self.steps & 63) == 0 and time.time() > self.deadline:
+                    raise Budget("analysis time limit exceeded in %s" % body["path"])
                 try:
                     succ = self.exec_block(fr, b, s)
                 except Dead:
